@@ -31,7 +31,7 @@ import (
 	"strings"
 )
 
-const rtImport = "github.com/rulego/streamsql/utils/simrt"
+const rtImport = "verif.local/simrt"
 
 type ins struct {
 	off  int
@@ -293,6 +293,7 @@ func collect(f *file) {
 
 func main() {
 	denseRe := flag.String("dense", "", "regexp over relative file paths that get statement-level yields")
+	onlyRe := flag.String("only", "", "regexp over relative file paths: instrument only these (default: all)")
 	flag.BoolVar(&verbose, "v", false, "verbose")
 	flag.Parse()
 	root := flag.Arg(0)
@@ -300,9 +301,12 @@ func main() {
 		fmt.Fprintln(os.Stderr, "usage: instr [-dense re] <root>")
 		os.Exit(2)
 	}
-	var dre *regexp.Regexp
+	var dre, ore *regexp.Regexp
 	if *denseRe != "" {
 		dre = regexp.MustCompile(*denseRe)
+	}
+	if *onlyRe != "" {
+		ore = regexp.MustCompile(*onlyRe)
 	}
 	var files []*file
 	err := filepath.Walk(root, func(p string, info os.FileInfo, err error) error {
@@ -317,6 +321,9 @@ func main() {
 			return nil
 		}
 		if !strings.HasSuffix(p, ".go") || strings.HasSuffix(p, "_test.go") {
+			return nil
+		}
+		if ore != nil && !ore.MatchString(rel) {
 			return nil
 		}
 		src, err := os.ReadFile(p)
